@@ -27,6 +27,10 @@ thread_local! {
 pub fn current() -> Option<Value> {
     CURRENT.with(|c| c.borrow().clone())
 }
+/// Other non-BFS modes (deadline landings) describe themselves to the replay writers the same way.
+pub fn set_current(v: Option<Value>) {
+    CURRENT.with(|c| *c.borrow_mut() = v);
+}
 
 pub struct DeepCfg {
     pub seeds: u64,
@@ -212,6 +216,9 @@ pub fn replay_file(v: &Value) -> i32 {
     let prop: &'static str = Box::leak(v["prop"].as_str().unwrap_or("").to_string().into_boxed_str());
     let tier: &'static str = Box::leak(v["tier"].as_str().unwrap_or("quick").to_string().into_boxed_str());
     let d = &v["deep"];
+    if d["mode"] == "deadline-landing" {
+        return crate::props_tree::replay_landing(tier, d);
+    }
     let idx = d["scenario_index"].as_u64().unwrap_or(0) as usize;
     let seed = d["seed"].as_u64().unwrap_or(0);
     let c = DeepCfg { seeds: 1, chunks: d["chunks"].as_u64().unwrap_or(4) as usize, chunk_len: d["chunk_len"].as_u64().unwrap_or(30) as usize, bias: d["goal_bias"].as_f64().unwrap_or(0.1) };
